@@ -765,6 +765,7 @@ func (mq *MessageQueue) extractOutgoingMessage(supportsHave bool) (bsmsg.BitSwap
 		peerEntries = filteredPeerEntries
 	}
 	mq.wllock.Unlock()
+	verifHook(mq)
 
 	// We prioritize cancels, then regular wants, then broadcast wants.
 
